@@ -194,45 +194,106 @@ func (h *hflow) walk(v ssa.Value, path []int, stack []*ssa.Call) {
 	}
 }
 
-// hintUses: every NewHint site of the module with the bounds its gadget demands of the outputs
+// hintWrapper: fn forwards one of its parameters as the hint function to NewHint and returns the slice of outputs
+// (`func (p *Chip) mustHint(f solver.Hint, n int, in ...frontend.Variable) []frontend.Variable`); returns the index
+// of that parameter
+func hintWrapper(fn *ssa.Function) (int, bool) {
+	if fn == nil || fn.Blocks == nil {
+		return 0, false
+	}
+	for _, b := range fn.Blocks {
+		for _, ins := range b.Instrs {
+			c, ok := ins.(*ssa.Call)
+			if !ok || !c.Common().IsInvoke() || c.Common().Method.Name() != "NewHint" || len(c.Common().Args) < 2 {
+				continue
+			}
+			p, ok := stripCopies(c.Common().Args[0]).(*ssa.Parameter)
+			if !ok {
+				continue
+			}
+			// every return hands back output slice of this call
+			okRet, n := true, 0
+			for _, rb := range fn.Blocks {
+				ret, isRet := rb.Instrs[len(rb.Instrs)-1].(*ssa.Return)
+				if !isRet {
+					continue
+				}
+				n++
+				if len(ret.Results) != 1 {
+					okRet = false
+					continue
+				}
+				ex, isEx := ret.Results[0].(*ssa.Extract)
+				if !isEx || ex.Tuple != ssa.Value(c) || ex.Index != 0 {
+					okRet = false
+				}
+			}
+			if okRet && n > 0 {
+				return paramIndex(fn, p), true
+			}
+		}
+	}
+	return 0, false
+}
+
+// hintUses: every NewHint site of the module (direct, or through a forwarding wrapper) with the bounds its gadget
+// demands of the outputs
 func hintUses(P *Program) []*hintUse {
 	var out []*hintUse
+	follow := func(use *hintUse, outputs ssa.Value) {
+		if outputs.Referrers() == nil {
+			return
+		}
+		for _, r2 := range *outputs.Referrers() {
+			ia, ok := r2.(*ssa.IndexAddr)
+			if !ok || ia.Referrers() == nil {
+				continue
+			}
+			k64, ok := constInt(ia.Index)
+			if !ok {
+				continue
+			}
+			for _, r3 := range *ia.Referrers() {
+				if ld, ok := r3.(*ssa.UnOp); ok && ld.Op == token.MUL {
+					h := &hflow{P: P, use: use, k: int(k64), seen: map[string]bool{}}
+					h.walk(ld, nil, nil)
+				}
+			}
+		}
+	}
 	for _, fn := range P.ModuleFuncsSorted() {
 		for _, b := range fn.Blocks {
 			for _, ins := range b.Instrs {
 				c, ok := ins.(*ssa.Call)
-				if !ok || !c.Common().IsInvoke() || c.Common().Method.Name() != "NewHint" || len(c.Common().Args) < 2 {
+				if !ok {
 					continue
 				}
-				hf, ok := stripCopies(c.Common().Args[0]).(*ssa.Function)
-				if !ok || !isHintSig(hf) {
-					continue
-				}
-				use := &hintUse{hint: hf, site: c.Pos(), caller: fn, bounds: map[int]*big.Int{}, varW: map[int]bool{}, what: map[int]string{}}
-				out = append(out, use)
-				if c.Referrers() == nil {
-					continue
-				}
-				for _, r := range *c.Referrers() {
-					ex, ok := r.(*ssa.Extract)
-					if !ok || ex.Index != 0 || ex.Referrers() == nil {
+				if c.Common().IsInvoke() && c.Common().Method.Name() == "NewHint" && len(c.Common().Args) >= 2 {
+					hf, ok := stripCopies(c.Common().Args[0]).(*ssa.Function)
+					if !ok || !isHintSig(hf) {
 						continue
 					}
-					for _, r2 := range *ex.Referrers() {
-						ia, ok := r2.(*ssa.IndexAddr)
-						if !ok || ia.Referrers() == nil {
+					use := &hintUse{hint: hf, site: c.Pos(), caller: fn, bounds: map[int]*big.Int{}, varW: map[int]bool{}, what: map[int]string{}}
+					out = append(out, use)
+					if c.Referrers() == nil {
+						continue
+					}
+					for _, r := range *c.Referrers() {
+						if ex, ok := r.(*ssa.Extract); ok && ex.Index == 0 {
+							follow(use, ex)
+						}
+					}
+					continue
+				}
+				if w := c.Common().StaticCallee(); w != nil && P.InModule(w) {
+					if k, isW := hintWrapper(w); isW && k < len(c.Common().Args) {
+						hf, ok := stripCopies(c.Common().Args[k]).(*ssa.Function)
+						if !ok || !isHintSig(hf) {
 							continue
 						}
-						k64, ok := constInt(ia.Index)
-						if !ok {
-							continue
-						}
-						for _, r3 := range *ia.Referrers() {
-							if ld, ok := r3.(*ssa.UnOp); ok && ld.Op == token.MUL {
-								h := &hflow{P: P, use: use, k: int(k64), seen: map[string]bool{}}
-								h.walk(ld, nil, nil)
-							}
-						}
+						use := &hintUse{hint: hf, site: c.Pos(), caller: fn, bounds: map[int]*big.Int{}, varW: map[int]bool{}, what: map[int]string{}}
+						out = append(out, use)
+						follow(use, c)
 					}
 				}
 			}
@@ -251,6 +312,51 @@ type hbody struct {
 	// allOperands: an exclusive bound established for every inputs[i] by a checking loop, valid in blocks dominated
 	// by the loop's exit
 	loopFacts []loopFact
+	// a helper of the hint evaluated in the context of one call: its parameters stand for the call's arguments
+	parent *hbody
+	call   *ssa.Call
+}
+
+func (hb *hbody) child(g *ssa.Function, call *ssa.Call) *hbody {
+	d := 0
+	for q := hb; q != nil; q = q.parent {
+		d++
+	}
+	if d > 3 || g == nil || g.Blocks == nil || !hb.P.InModule(g) {
+		return nil
+	}
+	return &hbody{P: hb.P, fn: g, fi: GetFnInfo(g), parent: hb, call: call}
+}
+
+// canonAt: a parameter of a helper stands for the argument of the call being evaluated (in the caller's context, at
+// the call's block)
+func (hb *hbody) canonAt(v ssa.Value, at *ssa.BasicBlock) (ssa.Value, *hbody, *ssa.BasicBlock) {
+	for {
+		v = stripCopies(v)
+		p, ok := v.(*ssa.Parameter)
+		if !ok || hb.parent == nil {
+			return v, hb, at
+		}
+		idx := paramIndex(hb.fn, p)
+		if idx < 0 || idx >= len(hb.call.Common().Args) {
+			return v, hb, at
+		}
+		v, at, hb = hb.call.Common().Args[idx], hb.call.Block(), hb.parent
+	}
+}
+
+// singleReturn: the only return instruction of g
+func singleReturn(g *ssa.Function) *ssa.Return {
+	var ret *ssa.Return
+	for _, b := range g.Blocks {
+		if r, ok := b.Instrs[len(b.Instrs)-1].(*ssa.Return); ok {
+			if ret != nil {
+				return nil
+			}
+			ret = r
+		}
+	}
+	return ret
 }
 
 type loopFact struct {
@@ -273,6 +379,10 @@ func (hb *hbody) exactOf(v ssa.Value, depth int) *big.Int {
 	}
 	v = stripCopies(v)
 	switch x := v.(type) {
+	case *ssa.Parameter:
+		if cv, c, _ := hb.canonAt(x, nil); c != hb {
+			return c.exactOf(cv, depth+1)
+		}
 	case *ssa.Const:
 		if x.Value == nil {
 			return nil
@@ -380,6 +490,9 @@ func (hb *hbody) exactOf(v ssa.Value, depth int) *big.Int {
 
 // inputKey: v is (a load of) an element of the inputs slice: "in[k]" or "in[*]"
 func (hb *hbody) inputKey(v ssa.Value) string {
+	if hb.parent != nil || hb.inputs == nil {
+		return ""
+	}
 	u, ok := stripCopies(v).(*ssa.UnOp)
 	if !ok || u.Op != token.MUL {
 		return ""
@@ -395,10 +508,20 @@ func (hb *hbody) inputKey(v ssa.Value) string {
 }
 
 func sameBig(a, b ssa.Value, hb *hbody) bool {
+	return sameBig2(a, hb, b, hb)
+}
+
+// sameBig2: a (a value of context ha) and b (of context hb) denote the same integer
+func sameBig2(a ssa.Value, ha *hbody, b ssa.Value, hb *hbody) bool {
+	a, ha, _ = ha.canonAt(a, nil)
+	b, hb, _ = hb.canonAt(b, nil)
+	if ha != hb {
+		return false
+	}
 	if stripCopies(a) == stripCopies(b) {
 		return true
 	}
-	ka, kb := hb.inputKey(a), hb.inputKey(b)
+	ka, kb := ha.inputKey(a), hb.inputKey(b)
 	return ka != "" && ka == kb && ka != "in[*]"
 }
 
@@ -408,7 +531,11 @@ func (hb *hbody) edgeFact(d *ssa.BasicBlock, takenTrue bool, v ssa.Value) *big.I
 	if !ok {
 		return nil
 	}
-	cond := iff.Cond
+	return hb.condFact(iff.Cond, takenTrue, v, hb)
+}
+
+// condFact: what the boolean cond (a value of this context) being true / false tells about v (a value of context vhb)
+func (hb *hbody) condFact(cond ssa.Value, takenTrue bool, v ssa.Value, vhb *hbody) *big.Int {
 	neg := false
 	for {
 		if u, ok := cond.(*ssa.UnOp); ok && u.Op == token.NOT {
@@ -421,10 +548,19 @@ func (hb *hbody) edgeFact(d *ssa.BasicBlock, takenTrue bool, v ssa.Value) *big.I
 	holds := takenTrue != neg
 	switch c := cond.(type) {
 	case *ssa.Call:
-		if name, ok := bigMethod(c); ok && name == "IsUint64" && holds && sameBig(c.Common().Args[0], v, hb) {
+		if _, isBig := bigMethod(c); !isBig {
+			// a predicate helper of the module: `func isCanonical(x *big.Int) bool { return x.Cmp(MODULUS) < 0 }`
+			if ch := hb.child(c.Common().StaticCallee(), c); ch != nil {
+				if ret := singleReturn(ch.fn); ret != nil && len(ret.Results) == 1 && len(ch.fn.Blocks) == 1 {
+					return ch.condFact(ret.Results[0], holds, v, vhb)
+				}
+			}
+			return nil
+		}
+		if name, ok := bigMethod(c); ok && name == "IsUint64" && holds && sameBig2(c.Common().Args[0], hb, v, vhb) {
 			return new(big.Int).Sub(pow2(64), big.NewInt(1))
 		}
-		if name, ok := bigMethod(c); ok && name == "IsInt64" && holds && sameBig(c.Common().Args[0], v, hb) {
+		if name, ok := bigMethod(c); ok && name == "IsInt64" && holds && sameBig2(c.Common().Args[0], hb, v, vhb) {
 			return new(big.Int).Sub(pow2(63), big.NewInt(1))
 		}
 	case *ssa.BinOp:
@@ -479,7 +615,7 @@ func (hb *hbody) edgeFact(d *ssa.BasicBlock, takenTrue bool, v ssa.Value) *big.I
 			if len(args) != 2 {
 				return nil
 			}
-			if sameBig(args[0], v, hb) {
+			if sameBig2(args[0], hb, v, vhb) {
 				y := hb.exactOf(args[1], 0)
 				if y == nil {
 					return nil
@@ -491,7 +627,7 @@ func (hb *hbody) edgeFact(d *ssa.BasicBlock, takenTrue bool, v ssa.Value) *big.I
 					return y
 				}
 			}
-			if sameBig(args[1], v, hb) { // y.Cmp(x): x ≤ y when outcomes −1 excluded
+			if sameBig2(args[1], hb, v, vhb) { // y.Cmp(x): x ≤ y when outcomes −1 excluded
 				y := hb.exactOf(args[0], 0)
 				if y == nil {
 					return nil
@@ -504,11 +640,11 @@ func (hb *hbody) edgeFact(d *ssa.BasicBlock, takenTrue bool, v ssa.Value) *big.I
 				}
 			}
 		case "Sign":
-			if sameBig(args[0], v, hb) && !sat(1) {
+			if sameBig2(args[0], hb, v, vhb) && !sat(1) {
 				return big.NewInt(0)
 			}
 		case "BitLen":
-			if sameBig(args[0], v, hb) {
+			if sameBig2(args[0], hb, v, vhb) {
 				// find the largest bit length that satisfies the condition, if bounded
 				best := int64(-1)
 				for o := int64(0); o <= 512; o++ {
@@ -714,7 +850,7 @@ func (hb *hbody) ub(v ssa.Value, at *ssa.BasicBlock, depth int) (bound *big.Int,
 	if e := hb.exactOf(v, 0); e != nil {
 		return e, false
 	}
-	if mutatedLater(v) {
+	if _, isAlloc := v.(*ssa.Alloc); !isAlloc && mutatedLater(v) {
 		return nil, false
 	}
 	min := func(a, b *big.Int) *big.Int {
@@ -729,6 +865,12 @@ func (hb *hbody) ub(v ssa.Value, at *ssa.BasicBlock, depth int) (bound *big.Int,
 		return b
 	}
 	fact := hb.pathFacts(v, at)
+	if _, isParam := v.(*ssa.Parameter); isParam && hb.parent != nil {
+		if cv, c, cat := hb.canonAt(v, at); c != hb {
+			b, n := c.ub(cv, cat, depth+1)
+			return min(b, fact), n
+		}
+	}
 	switch x := v.(type) {
 	case *ssa.Phi:
 		var worst *big.Int
@@ -746,8 +888,14 @@ func (hb *hbody) ub(v ssa.Value, at *ssa.BasicBlock, depth int) (bound *big.Int,
 		return min(worst, fact), anyNil
 	case *ssa.Call:
 		name, isBig := bigMethod(x)
-		args := x.Common().Args
 		if !isBig {
+			if ch := hb.child(x.Common().StaticCallee(), x); ch != nil {
+				if ret := singleReturn(ch.fn); ret != nil && len(ret.Results) == 1 {
+					b, n := ch.ub(ret.Results[0], ret.Block(), depth+1)
+					return min(b, fact), n
+				}
+				return fact, false
+			}
 			if g := x.Common().StaticCallee(); g != nil && g.Signature.Recv() != nil && g.Name() == "BigInt" &&
 				strings.HasSuffix(g.Signature.Recv().Type().String(), "goldilocks.Element") {
 				// gnark-crypto: Element.BigInt writes the regular (canonical) form, < p
@@ -760,93 +908,87 @@ func (hb *hbody) ub(v ssa.Value, at *ssa.BasicBlock, depth int) (bound *big.Int,
 			// this call alone
 			return fact, name == "ModInverse" || name == "ModSqrt"
 		}
-		arg := func(i int) (*big.Int, bool) {
-			if i >= len(args) {
-				return nil, false
-			}
-			return hb.ub(args[i], at, depth+1)
-		}
-		var r *big.Int
-		switch name {
-		case "Set":
-			r, nilable = arg(1)
-		case "SetUint64":
-			r = new(big.Int).Sub(pow2(64), big.NewInt(1))
-		case "Add":
-			a, _ := arg(1)
-			b, _ := arg(2)
-			if a != nil && b != nil {
-				r = new(big.Int).Add(a, b)
-			}
-		case "Mul":
-			a, _ := arg(1)
-			b, _ := arg(2)
-			if a != nil && b != nil {
-				r = new(big.Int).Mul(a, b)
-			}
-		case "Div", "Quo":
-			a, _ := arg(1)
-			if y := hb.exactOf(args[2], 0); a != nil && y != nil && y.Sign() > 0 {
-				r = new(big.Int).Quo(a, y)
-			} else if a != nil {
-				r = a
-			}
-		case "Rem", "Mod":
-			a, _ := arg(1)
-			b, _ := arg(2)
-			if b != nil && b.Sign() > 0 {
-				r = new(big.Int).Sub(b, big.NewInt(1))
-			}
-			r = min(r, a)
-		case "Rsh":
-			a, _ := arg(1)
-			if n := hb.exactOf(args[2], 0); a != nil && n != nil && n.IsInt64() && n.Int64() < 4096 {
-				r = new(big.Int).Rsh(a, uint(n.Int64()))
-			} else {
-				r = a
-			}
-		case "And":
-			a, _ := arg(1)
-			b, _ := arg(2)
-			r = min(a, b)
-		case "ModInverse":
-			b, _ := arg(2)
-			if b != nil && b.Sign() > 0 {
-				r = new(big.Int).Sub(b, big.NewInt(1))
-			}
-			nilable = true
-		case "ModSqrt":
-			b, _ := arg(2)
-			if b != nil && b.Sign() > 0 {
-				r = new(big.Int).Sub(b, big.NewInt(1))
-			}
-			nilable = true
-		case "Exp":
-			if len(args) == 4 && !isNilConst(args[3]) {
-				b, _ := arg(3)
-				if b != nil && b.Sign() > 0 {
-					r = new(big.Int).Sub(b, big.NewInt(1))
-				}
-			}
-		}
+		r, nilable := hb.opBound(x, name, at, depth)
 		return min(r, fact), nilable
 	case *ssa.Alloc:
-		// new(big.Int) that nothing else touches is zero
-		if pt, ok := x.Type().Underlying().(*types.Pointer); ok && pt.Elem().String() == "math/big.Int" && x.Referrers() != nil {
-			only := true
-			for _, r := range *x.Referrers() {
-				switch r.(type) {
-				case *ssa.Store, *ssa.DebugRef:
-				default:
-					only = false
+		// a big.Int made here (new(big.Int)): zero if nothing writes it; otherwise the result of the single big.Int
+		// operation that has it as receiver or as its out-parameter (z.QuoRem(x, y, r) writes z and r)
+		pt, ok := x.Type().Underlying().(*types.Pointer)
+		if !ok || pt.Elem().String() != "math/big.Int" || x.Referrers() == nil {
+			return fact, false
+		}
+		var writer *ssa.Call
+		role := ""
+		writers := 0
+		for _, r := range *x.Referrers() {
+			switch u := r.(type) {
+			case *ssa.Store:
+				if u.Addr == ssa.Value(x) {
+					return fact, false // assigned as a whole
 				}
-			}
-			if only {
-				return big.NewInt(0), false
+			case *ssa.DebugRef, *ssa.Return, *ssa.Phi, *ssa.MakeInterface:
+			case *ssa.Call:
+				name, isBig := bigMethod(u)
+				if !isBig {
+					return fact, false // handed to other code
+				}
+				args := u.Common().Args
+				if len(args) > 0 && args[0] == ssa.Value(x) {
+					switch name {
+					case "Cmp", "CmpAbs", "Sign", "IsUint64", "IsInt64", "Uint64", "Int64", "BitLen", "String", "Text", "Bytes", "Bit", "Bits", "TrailingZeroBits", "ProbablyPrime", "FillBytes", "Format", "Append":
+					default:
+						writers++
+						writer, role = u, "recv"
+					}
+				}
+				if (name == "QuoRem" || name == "DivMod") && len(args) == 4 && args[3] == ssa.Value(x) {
+					writers++
+					writer, role = u, "rem"
+				}
+			default:
+				return fact, false
 			}
 		}
+		switch {
+		case writers == 0:
+			return big.NewInt(0), false
+		case writers > 1:
+			return fact, false
+		}
+		wargs := writer.Common().Args
+		wname, _ := bigMethod(writer)
+		if wname == "QuoRem" || wname == "DivMod" {
+			a, _ := hb.ub(wargs[1], writer.Block(), depth+1)
+			y := hb.exactOf(wargs[2], 0)
+			if y == nil || y.Sign() <= 0 {
+				return fact, false
+			}
+			if role == "rem" {
+				return min(min(new(big.Int).Sub(y, big.NewInt(1)), a), fact), false
+			}
+			if a != nil {
+				return min(new(big.Int).Quo(a, y), fact), false
+			}
+			return fact, false
+		}
+		if role == "recv" {
+			// any other operation: evaluate it as if its receiver were fresh (this local is written by it alone)
+			b, n := hb.opBound(writer, wname, writer.Block(), depth+1)
+			return min(b, fact), n
+		}
+		return fact, false
 	case *ssa.Extract:
 		if c, ok := x.Tuple.(*ssa.Call); ok {
+			if _, isBig := bigMethod(c); !isBig {
+				// one result of a module helper returning several values (quotient, remainder)
+				if ch := hb.child(c.Common().StaticCallee(), c); ch != nil {
+					if ret := singleReturn(ch.fn); ret != nil && x.Index < len(ret.Results) {
+						b, n := ch.ub(ret.Results[x.Index], ret.Block(), depth+1)
+						return min(b, fact), n
+					}
+				}
+				return fact, false
+			}
 			if name, isBig := bigMethod(c); isBig && name == "SetString" && x.Index == 0 {
 				return fact, true
 			}
@@ -864,6 +1006,93 @@ func (hb *hbody) ub(v ssa.Value, at *ssa.BasicBlock, depth int) (bound *big.Int,
 		}
 	}
 	return fact, false
+}
+
+// opBound: an inclusive upper bound of the result of the big.Int method call c (receiver value after the call)
+func (hb *hbody) opBound(c *ssa.Call, name string, at *ssa.BasicBlock, depth int) (*big.Int, bool) {
+	args := c.Common().Args
+	min := func(a, b *big.Int) *big.Int {
+		switch {
+		case a == nil:
+			return b
+		case b == nil:
+			return a
+		case a.Cmp(b) < 0:
+			return a
+		}
+		return b
+	}
+	nilable := false
+	arg := func(i int) (*big.Int, bool) {
+		if i >= len(args) {
+			return nil, false
+		}
+		return hb.ub(args[i], at, depth+1)
+	}
+	var r *big.Int
+	switch name {
+	case "Set":
+		r, nilable = arg(1)
+	case "SetUint64":
+		r = new(big.Int).Sub(pow2(64), big.NewInt(1))
+	case "Add":
+		a, _ := arg(1)
+		b, _ := arg(2)
+		if a != nil && b != nil {
+			r = new(big.Int).Add(a, b)
+		}
+	case "Mul":
+		a, _ := arg(1)
+		b, _ := arg(2)
+		if a != nil && b != nil {
+			r = new(big.Int).Mul(a, b)
+		}
+	case "Div", "Quo":
+		a, _ := arg(1)
+		if y := hb.exactOf(args[2], 0); a != nil && y != nil && y.Sign() > 0 {
+			r = new(big.Int).Quo(a, y)
+		} else if a != nil {
+			r = a
+		}
+	case "Rem", "Mod":
+		a, _ := arg(1)
+		b, _ := arg(2)
+		if b != nil && b.Sign() > 0 {
+			r = new(big.Int).Sub(b, big.NewInt(1))
+		}
+		r = min(r, a)
+	case "Rsh":
+		a, _ := arg(1)
+		if n := hb.exactOf(args[2], 0); a != nil && n != nil && n.IsInt64() && n.Int64() < 4096 {
+			r = new(big.Int).Rsh(a, uint(n.Int64()))
+		} else {
+			r = a
+		}
+	case "And":
+		a, _ := arg(1)
+		b, _ := arg(2)
+		r = min(a, b)
+	case "ModInverse":
+		b, _ := arg(2)
+		if b != nil && b.Sign() > 0 {
+			r = new(big.Int).Sub(b, big.NewInt(1))
+		}
+		nilable = true
+	case "ModSqrt":
+		b, _ := arg(2)
+		if b != nil && b.Sign() > 0 {
+			r = new(big.Int).Sub(b, big.NewInt(1))
+		}
+		nilable = true
+	case "Exp":
+		if len(args) == 4 && !isNilConst(args[3]) {
+			b, _ := arg(3)
+			if b != nil && b.Sign() > 0 {
+				r = new(big.Int).Sub(b, big.NewInt(1))
+			}
+		}
+	}
+	return r, nilable
 }
 
 // edgeTaken: every path from d to cur (a non-refusing block dominated by d) leaves d through its true (false) edge
